@@ -24,7 +24,7 @@ ASSUMPTIONS = [
     "group names are lower-cased by the library; the comparison uses the names the evaluator itself reports",
 ]
 MINIMUM = {"C12.groups_judged": 2000, "C12.undefined_label_judged": 100, "C12.noninterference_judged": 200}
-BUDGET_S = {"quick": 600, "thorough": 900}
+BUDGET_S = {"quick": 1200, "thorough": 900}
 SHARD_PYFLAGS = {3: ["-O"], 11: ["-O"]}  # the rejection of undefined labels must not depend on assert statements being compiled in
 
 
